@@ -234,12 +234,28 @@ def huffFill (which n0 baseSymbol nSymbols : Nat) (cl symbols : Array Nat) : Nat
                   else huffFill which n0 baseSymbol nSymbols cl symbols f
                     { s with i := i, code := code, prevCl := prevCl, counts := counts, writes := writes }
 
-/-- `decoder.init_huff!(which, n_codes0, n_codes1, base_symbol)` up to the table itself: the writes to
-    `this.huffs[which]` in program order, and the new `n_huffs_bits[which]` -/
-def initHuffWrites (cl : Array Nat) (which n0 n1 baseSymbol : Nat) : M (List (Nat × Nat) × Nat) := do
-  let counts ← huffCounts cl n0 n1
-  if counts.getD 0 0 + n0 = n1 then .error "#no Huffman codes"
+/-- `init_huff`, part 3 (from "Calculate min_cl and max_cl" on): `min_cl`, `max_cl`, `n_huffs_bits`, the two
+    consistency checks and the table-filling loop -/
+def initHuffFill (cl : Array Nat) (which n0 baseSymbol : Nat) (counts : Array Nat) (nSymbols : Nat)
+    (symbols offsets : Array Nat) : M (List (Nat × Nat) × Nat) := do
+  let _minCl ← huffMinCl counts 16 1
+  let maxCl ← huffMaxCl counts 16 15
+  let nHuffsBits := if maxCl ≤ 9 then maxCl else 9
+  if nSymbols ≠ offsets.getD maxCl 0 ∨ nSymbols ≠ offsets.getD 15 0 then .error errInternal
+  else if n0 + symbols.getD 0 0 ≥ 320 then .error errInternal
   else
+    let initialHighBits := if maxCl < 9 then 1 <<< maxCl else 1 <<< 9
+    let prevCl := cl.getD (n0 + symbols.getD 0 0) 0 &&& 15
+    let writes ← huffFill which n0 baseSymbol nSymbols cl symbols (nSymbols + 1)
+      { prevCl := prevCl, initialHighBits := initialHighBits, counts := counts }
+    .ok (writes.reverse, nHuffsBits)
+
+/-- `init_huff`, part 2 (after "Calculate counts"): the coverage check with the degenerate one-code H-D table,
+    `offsets`, `n_symbols`, `symbols` -/
+def initHuffCounted (cl : Array Nat) (which n0 n1 baseSymbol : Nat) (counts : Array Nat) :
+    M (List (Nat × Nat) × Nat) :=
+  if counts.getD 0 0 + n0 = n1 then .error "#no Huffman codes"
+  else do
     let remaining ← huffRemaining counts
     if remaining ≠ 0 then
       -- a degenerate H-D table with only one 1-bit code
@@ -248,22 +264,19 @@ def initHuffWrites (cl : Array Nat) (which n0 n1 baseSymbol : Nat) : M (List (Na
         | some i => .ok ([(0, deflateDcodeMagic.getD i 0 ||| 1), (1, deflateDcodeMagic.getD 31 0 ||| 1)], 1)
         | none => .error "#bad Huffman code (under-subscribed)"
       else .error "#bad Huffman code (under-subscribed)"
-    else
+    else do
       let (offsets, nSymbols) ← huffOffsets counts
       if nSymbols > 288 then .error errInternal
-      else
+      else do
         let (symbols, offsets) ← huffSymbols cl n0 n1 offsets
-        let _minCl ← huffMinCl counts 16 1
-        let maxCl ← huffMaxCl counts 16 15
-        let nHuffsBits := if maxCl ≤ 9 then maxCl else 9
-        if nSymbols ≠ offsets.getD maxCl 0 ∨ nSymbols ≠ offsets.getD 15 0 then .error errInternal
-        else if n0 + symbols.getD 0 0 ≥ 320 then .error errInternal
-        else
-          let initialHighBits := if maxCl < 9 then 1 <<< maxCl else 1 <<< 9
-          let prevCl := cl.getD (n0 + symbols.getD 0 0) 0 &&& 15
-          let writes ← huffFill which n0 baseSymbol nSymbols cl symbols (nSymbols + 1)
-            { prevCl := prevCl, initialHighBits := initialHighBits, counts := counts }
-          .ok (writes.reverse, nHuffsBits)
+        initHuffFill cl which n0 baseSymbol counts nSymbols symbols offsets
+
+/-- `decoder.init_huff!(which, n_codes0, n_codes1, base_symbol)` up to the table itself: the writes to
+    `this.huffs[which]` in program order, and the new `n_huffs_bits[which]` (three parts, so that each can be
+    evaluated separately) -/
+def initHuffWrites (cl : Array Nat) (which n0 n1 baseSymbol : Nat) : M (List (Nat × Nat) × Nat) := do
+  let counts ← huffCounts cl n0 n1
+  initHuffCounted cl which n0 n1 baseSymbol counts
 
 /-- apply recorded writes to a table, in order -/
 def applyWrites (t : Array Nat) (w : List (Nat × Nat)) : Array Nat :=
